@@ -208,6 +208,29 @@ def run(report, p):
         guards_ok = all(norm(r.value) == f"{v}.generation_number" and [norm(t.ast) for t, l in cfg_of(lgn).control_deps(cfg_of(lgn).node_for(r), through_loops=False) if t.kind == "test" and l == "T"] == [f"{v}.generation_number"] for r in inner)
         no_exit = not [x for x in ast.walk(loops[0]) if isinstance(x, (ast.Break, ast.Continue))]
         ok_scan = rev and bool(inner) and guards_ok and no_exit
+    if not ok_scan and not loops:
+        # next((n for n in (h.generation_number for h in reversed(self.hash_lists)) if n), 0): the first number from the end
+        def gen_chain(e, depth=0):
+            """True if e enumerates h.generation_number for every h of reversed(self.hash_lists), filtered at most by truthiness of the number"""
+            if depth > 4:
+                return False
+            if isinstance(e, ast.Name):
+                b = [n.value for n in walk_no_nested(lgn.node) if isinstance(n, ast.Assign) and len(n.targets) == 1 and isinstance(n.targets[0], ast.Name) and n.targets[0].id == e.id]
+                return len(b) == 1 and gen_chain(b[0], depth + 1)
+            if isinstance(e, (ast.GeneratorExp, ast.ListComp)) and len(e.generators) == 1:
+                gen = e.generators[0]
+                tv = norm(gen.target)
+                if not all(norm(i) in (tv, norm(e.elt)) for i in gen.ifs):
+                    return False
+                it = gen.iter
+                base = isinstance(it, ast.Call) and norm(it.func) == "reversed" and len(it.args) == 1 and norm(it.args[0]).endswith("hash_lists") and is_plain_iter(p, it.args[0])
+                if base:
+                    return norm(e.elt) == f"{tv}.generation_number"
+                return norm(e.elt) == tv and gen_chain(it, depth + 1)
+            return False
+
+        nx = [r.value for r in rets if isinstance(r.value, ast.Call) and norm(r.value.func) == "next" and len(r.value.args) == 2 and isinstance(r.value.args[1], ast.Constant) and r.value.args[1].value == 0]
+        ok_scan = len(nx) == len(rets) == 1 and gen_chain(nx[0].args[0])
     r3.check(ok_scan, lgn, lgn.node, "latest_generation_number does not scan all generations", construct="latest_generation_number")
     # every value it can return is a number read from a manifest that was actually loaded (or the constant start value):
     # the chain file lags behind the manifests after an interrupted run, a number taken from it can be one that is already used
@@ -216,8 +239,15 @@ def run(report, p):
             continue
         for o in pr.origins(rt.value, lgn):
             for t in alts(o):
-                while t[0] == "call" and t[1] in ("builtin:int", "builtin:max") and len(t[2]) >= 1 and all(x[0] == "const" for x in t[2][1:]):
-                    t = t[2][0]
+                while True:
+                    if t[0] == "call" and t[1] in ("builtin:int", "builtin:max", "builtin:next") and len(t[2]) >= 1 and all(x[0] == "const" for x in t[2][1:]):
+                        t = t[2][0]
+                    elif t[0] == "op" and t[1] == "comp" and t[2] and t[2][-1][0] != "unknown":
+                        t = t[2][-1]  # a generator expression stands for its element expression
+                    elif t[0] == "elem" and t[1][0] == "op" and t[1][1] == "comp" and t[1][2] and t[1][2][-1][0] != "unknown":
+                        t = t[1][2][-1]
+                    else:
+                        break
                 if t[0] == "attr" and t[2] == "generation_number" and t[1][0] == "elem" and t[1][1][0] == "call" and t[1][1][1] == "builtin:reversed" and t[1][1][2]:
                     t = ("attr", ("elem", t[1][1][2][0], t[1][2]), t[2], t[3] if len(t) > 3 else None)
                 if t[0] == "const" and isinstance(t[1], int):
